@@ -28,7 +28,8 @@ EXTENDS Naturals, Sequences, FiniteSets, TLC, Json
 CONSTANTS N,        \* number of concurrent requests
           Locked,   \* does ServeHTTP hold i.lock around the request
           Gated,    \* restrict the scheduler to what the gate-driven replayer can force (see StartG / RespondG)
-          KindSet   \* request kinds: "L" lookup, "P" pass, "E" error in recv, "R" restart once then lookup
+          KindSet   \* request kinds: "L" lookup, "P" pass, "E" error in recv, "R" restart once then lookup,
+                    \* "F" a request the handler refuses before taking the lock (loop detection on Fastly-FF)
 
 Req == 1..N
 VARIABLES kind, pc, holder, owner, slot, cached, counter, out, sched
@@ -45,9 +46,12 @@ Init ==
   /\ sched = <<>>
 
 Start(r) ==
-  /\ pc[r] = "idle" /\ pc' = [pc EXCEPT ![r] = "waiting"]
+  /\ pc[r] = "idle"
+  /\ IF kind[r] = "F"
+     THEN pc' = [pc EXCEPT ![r] = "done"] /\ out' = [out EXCEPT ![r] = [who |-> r, branch |-> "loop", seen |-> 0]]
+     ELSE pc' = [pc EXCEPT ![r] = "waiting"] /\ UNCHANGED out
   /\ sched' = Append(sched, <<"Start", r>>)
-  /\ UNCHANGED <<kind, holder, owner, slot, cached, counter, out>>
+  /\ UNCHANGED <<kind, holder, owner, slot, cached, counter>>
 
 Enter(r) ==
   /\ pc[r] = "waiting"
@@ -92,15 +96,23 @@ Respond(r) ==
 Waiting == {r \in Req : pc[r] = "waiting"}
 Install(r) == owner' = r /\ slot' = [None EXCEPT !.who = r]
 
+\* a refused request never takes the lock and touches nothing shared
+Refused(r) == [who |-> r, branch |-> "loop", seen |-> 0]
+
 StartG(r) ==
   /\ pc[r] = "idle"
-  /\ IF ~Locked \/ holder = 0
+  /\ IF kind[r] = "F"
+     THEN /\ pc' = [pc EXCEPT ![r] = "done"] /\ out' = [out EXCEPT ![r] = Refused(r)]
+          /\ sched' = Append(sched, <<"Start", r, r>>) /\ UNCHANGED <<holder, owner, slot>>
+     ELSE
+     IF ~Locked \/ holder = 0
      THEN /\ pc' = [pc EXCEPT ![r] = "in"] /\ holder' = (IF Locked THEN r ELSE holder) /\ Install(r)
           /\ sched' = Append(sched, <<"Start", r, r>>)          \* third component: who arrives at the enter gate
      ELSE /\ Waiting = {}
           /\ pc' = [pc EXCEPT ![r] = "waiting"] /\ UNCHANGED <<holder, owner, slot>>
           /\ sched' = Append(sched, <<"Start", r, 0>>)
-  /\ UNCHANGED <<kind, cached, counter, out>>
+  /\ kind[r] # "F" => UNCHANGED out
+  /\ UNCHANGED <<kind, cached, counter>>
 
 BodyG(r) == Body(r) /\ sched' = Append(sched, <<"Body", r, 0>>)
 
@@ -132,8 +144,9 @@ RECURSIVE SeqRun(_, _, _, _)
 SeqRun(ord, c, n, acc) ==
   IF ord = <<>> THEN [out |-> acc, cached |-> c, counter |-> n]
   ELSE LET r == Head(ord)  k == kind[r] IN
-       SeqRun(Tail(ord), c \/ k \in {"L", "R", "P"}, n + 1,
-              [acc EXCEPT ![r] = [who |-> r, branch |-> Branch(k, c), seen |-> n + 1]])
+       IF k = "F" THEN SeqRun(Tail(ord), c, n, [acc EXCEPT ![r] = [who |-> r, branch |-> "loop", seen |-> 0]])
+       ELSE SeqRun(Tail(ord), c \/ k \in {"L", "R", "P"}, n + 1,
+                   [acc EXCEPT ![r] = [who |-> r, branch |-> Branch(k, c), seen |-> n + 1]])
 
 Perms == {p \in [Req -> Req] : \A a, b \in Req : a # b => p[a] # p[b]}
 AsSeq(p) == [i \in Req |-> p[i]]
